@@ -134,6 +134,29 @@ theorem delivers_of_fixed (cfg : Cfg) (tag : Nat) (c : Cmd) (body : Wire) (calls
       simpa [List.append_assoc] using hpo
     · simp [hrest] at hr
 
+theorem segLin_lin (s : Seg) : Seg.Lin s s.lin := by
+  cases s with
+  | fixed w => exact Seg.Lin.fixed w
+  | anyOrder items => exact Seg.Lin.anyOrder items items (List.Perm.refl _)
+
+theorem lin_linearise : ∀ (segs : List Seg), Lin segs (linearise segs)
+  | [] => Lin.nil
+  | s :: ss => by
+    have := Lin.cons s ss _ _ (segLin_lin s) (lin_linearise ss)
+    simpa [linearise] using this
+
+theorem linAll_linearise : ∀ (cmds : List (List Seg)), LinAll cmds (cmds.map linearise)
+  | [] => LinAll.nil
+  | c :: cs => LinAll.cons _ _ _ _ (lin_linearise c) (linAll_linearise cs)
+
+/-- the listed order is one of the orders: `Delivers` implies the `roundTrip` statement -/
+theorem roundTrip_of_delivers (cfg : Cfg) (tag : Nat) (c : Cmd) (calls : List Cmd) (h : Delivers {} cfg tag c calls) :
+    roundTrip {} cfg tag c = .calls calls := by
+  obtain ⟨cmds, hp, hall⟩ := h
+  unfold roundTrip
+  rw [hp]
+  simp only [hall _ (linAll_linearise cmds)]
+
 /-- STATUS: every order of the items -/
 theorem status_delivers (cfg : Cfg) (tag : Nat) (m : List Nat) (o : StatusOpts) (hm : MailboxOK m) (ho : o.highestModSeq = false) :
     Delivers {} cfg tag (.status m o) (sem cfg (.status m o)) := by
